@@ -30,12 +30,18 @@ package configure
 //@ ensures [load-traced] LoadLen == old(LoadLen) + 1 && LoadAt == store(old(LoadAt), old(LoadLen), self) && LoadOut == store(old(LoadOut), old(LoadLen), result0)
 //@ ensures [failure-recorded] Failed == (old(Failed) || result1 != nil)
 
+//   DocsLen / DocAt: the documents a binder has merged so far, oldest first (its effective configuration is their
+//   merge, later documents winning key by key)
+//@ ghost field (Binder) DocsLen int
+//@ ghost field (Binder) DocAt map[int][]byte
 //@ method (Binder).SetConfig
 //@ terminates
 //@ property C15
-//@ assigns FedLen, FedAt, Failed
+//@ assigns FedLen, FedAt, Failed, self.DocsLen, self.DocAt
 //@ ensures [fed-traced] FedLen == old(FedLen) + 1 && FedAt == store(old(FedAt), old(FedLen), c)
 //@ ensures [failure-recorded] Failed == (old(Failed) || result != nil)
+//@ ensures [merged-on-top] implies(result == nil, self.DocsLen == old(self.DocsLen) + 1 && self.DocAt == store(old(self.DocAt), old(self.DocsLen), c))
+//@ ensures [failed-merge-changes-nothing] implies(result != nil, self.DocsLen == old(self.DocsLen) && self.DocAt == old(self.DocAt))
 
 // ---- the loader list ---------------------------------------------------------------------------------
 
@@ -76,7 +82,8 @@ package configure
 //@ property C15 C12
 //@ requires [binder-set] c.Binder != nil
 //@ requires [loaders-non-nil] forall(k, int, implies(0 <= k && k < len(c.loaders), c.loaders[k] != nil))
-//@ assigns c.loaders, LoadLen, LoadAt, LoadOut, LoadSrc, FedLen, FedAt, FedFrom, FedOf, Failed
+//@ assigns c.loaders, LoadLen, LoadAt, LoadOut, LoadSrc, FedLen, FedAt, FedFrom, FedOf, Failed, c.Binder.DocsLen, c.Binder.DocAt
+//@ let d0 = c.Binder.DocsLen
 //@ let n = len(c.loaders)
 //@ let load0 = LoadLen
 //@ let fed0 = FedLen
@@ -91,12 +98,16 @@ package configure
 //@ ensures [fed-in-load-order] forall(f, int, forall(g, int, implies(fed0 <= f && f < g && g < FedLen, FedFrom[f] < FedFrom[g]), FedFrom[g]), FedFrom[f])
 //@ ensures [nonempty-loads-fed] implies(result == nil, forall(k, int, implies(load0 <= k && k < LoadLen && len(LoadOut[k]) != 0, fed0 <= FedOf[k] && FedOf[k] < FedLen && FedFrom[FedOf[k]] == k), LoadOut[k]))
 //@ ensures [stops-at-first-error] implies(result != nil, LoadLen > load0 && LoadLen <= load0 + n)
+// what the binder holds afterwards: everything it held before, then the fed documents in the order they were fed
+//@ ensures [binder-merged-in-feed-order] implies(result == nil, c.Binder.DocsLen == d0 + FedLen - fed0 && forall(f, int, implies(fed0 <= f && f < FedLen, c.Binder.DocAt[d0 + f - fed0] == FedAt[f]), FedAt[f]))
+//@ ensures [earlier-documents-kept] forall(j, int, implies(0 <= j && j < d0, c.Binder.DocAt[j] == old(c.Binder.DocAt[j])))
 //@ ensures [failure-surfaces] implies(result == nil, Failed == old(Failed))
 //@ ghost after call LoadConfig: LoadSrc = store(LoadSrc, LoadLen - 1, tag(c.loaders, i))
 //@ ghost after call SetConfig: FedFrom = store(FedFrom, FedLen - 1, LoadLen - 1)
 //@ ghost after call SetConfig: FedOf = store(FedOf, LoadLen - 1, FedLen - 1)
 //@ loop 1 invariant [trace-length] LoadLen == load0 + _done && 0 <= _done && _done <= len(c.loaders) && FedLen >= fed0
 //@ loop 1 invariant [no-failure-so-far] Failed == old(Failed)
+//@ loop 1 invariant [merged-so-far] c.Binder.DocsLen == d0 + FedLen - fed0 && forall(f, int, implies(fed0 <= f && f < FedLen, c.Binder.DocAt[d0 + f - fed0] == FedAt[f]), FedAt[f]) && forall(j, int, implies(0 <= j && j < d0, c.Binder.DocAt[j] == old(c.Binder.DocAt[j])))
 //@ loop 1 invariant [trace-is-sorted-prefix] forall(m, int, implies(load0 <= m && m < load0 + _done, LoadAt[m] == c.loaders[m - load0] && LoadSrc[m] == tag(c.loaders, m - load0)), LoadAt[m], LoadSrc[m])
 //@ loop 1 invariant [fed-from-loads] forall(f, int, implies(fed0 <= f && f < FedLen, load0 <= FedFrom[f] && FedFrom[f] < LoadLen && FedAt[f] == LoadOut[FedFrom[f]] && len(FedAt[f]) != 0), FedAt[f], FedFrom[f])
 //@ loop 1 invariant [fed-in-load-order] forall(f, int, forall(g, int, implies(fed0 <= f && f < g && g < FedLen, FedFrom[f] < FedFrom[g]), FedFrom[g]), FedFrom[f])
